@@ -7,81 +7,66 @@ From PlzV Require Import Base.Harness Model.C32 Proof.C32.
 
    - fs.WriteFile killed after any number of its file steps leaves the destination with the old content or with
      the complete new content and mode;
-   - for every target, every build of the current tree (dirouts, new contents, current hashes), every starting
-     state s0 that is itself trustworthy (what `safe` says: the next build would rebuild it, or it is complete),
-     and every HISTORY of builds of that tree (normal or --rebuild) each killed after an arbitrary number of its
-     persistent steps: the next normal build succeeds, leaves exactly the outputs of a clean build, and the
-     metadata file it trusts is complete. *)
+   - for every target (any number of declared outputs, output_dirs or not), every build of the current tree
+     (discovered outputs, new contents, current hashes), every trusted starting state s0 (`trusted`: whenever the
+     record the pre-build check reads is the current one, the outputs are those of the current tree and the
+     metadata file, if present, is complete - true of the empty plz-out and of every completed build of any tree
+     whose hashes differ), and every HISTORY of builds of that tree, normal or --rebuild, each killed after an
+     arbitrary number of its persistent steps: the next normal build succeeds, leaves exactly the outputs of a
+     clean build, and the metadata file it leaves/trusts is complete. *)
 Definition C32_statement : Prop :=
   (forall dir old chunks mode k,
      let s := wrun (firstn k (wf_steps dir chunks mode)) (mkWst old None dir) in
      w_dest s = old \/ w_dest s = Some (mkW (concat chunks) (eff_mode mode)))
   /\
-  (forall t b s0 evs, safe t b s0 ->
+  (forall t b s0 evs, trusted t b s0 ->
      exists s', recover t b (after t b evs s0) = Some s' /\ good_end t b s').
 
-(* The code violates it: `plz build --rebuild` of an up-to-date target with output_dirs, killed between
-   os.Create and the write of the metadata file (2 steps), leaves an empty metadata file next to outputs that
-   still carry the current record; the next build trusts them and fails with "failed to load build metadata". *)
-Theorem C32_refuted : ~ C32_statement.
-Proof.
-  intros [_ H]. destruct (H wt wb wdone [(true, 2)] wdone_safe) as [s' [Hr _]].
-  rewrite forced_rebuild_window in Hr. discriminate.
-Qed.
-Print Assumptions C32_refuted.
+Theorem C32_full : C32_statement.
+Proof. exact (conj writefile_prefix histories_full). Qed.
+Print Assumptions C32_full.
 
-(* What holds for all inputs: WriteFile unconditionally; and every history of killed builds none of which
-   STARTS while the record read by the pre-build check is the current one (`after_guarded` is the executable
-   classifier of that window: forced rebuild, or a rebuild decided by the post-build check). *)
-Definition C32_partial_statement : Prop :=
-  (forall dir old chunks mode k,
-     let s := wrun (firstn k (wf_steps dir chunks mode)) (mkWst old None dir) in
-     w_dest s = old \/ w_dest s = Some (mkW (concat chunks) (eff_mode mode)))
-  /\
-  (forall t b s0 evs, safe t b s0 -> after_guarded t b evs s0 <> None ->
-     exists s', recover t b (after t b evs s0) = Some s' /\ good_end t b s').
-
-Theorem C32_partial : C32_partial_statement.
-Proof. exact (conj writefile_prefix histories_partial). Qed.
-Print Assumptions C32_partial.
-
-(* the two mechanisms on their own *)
+(* the two anchored mechanisms on their own *)
 Theorem C32_writefile : forall dir old chunks mode k,
   let s := wrun (firstn k (wf_steps dir chunks mode)) (mkWst old None dir) in
   w_dest s = old \/ w_dest s = Some (mkW (concat chunks) (eff_mode mode)).
 Proof. exact writefile_prefix. Qed.
 Print Assumptions C32_writefile.
 
-(* one build whose start state does not carry the current record, killed after k steps (any k, any number of
-   outputs): the next build rebuilds the target or finds exactly a completed build; either way it ends clean *)
-Theorem C32_build_one : forall t b s0 k, safe t b s0 -> in_window t b s0 = false ->
-  safe t b (crash k t b s0) /\ exists s', recover t b (crash k t b s0) = Some s' /\ good_end t b s'.
-Proof. exact build_one. Qed.
+(* one build killed after k of its steps (any k, any number of outputs, forced or not): the state is trusted
+   again - the next build rebuilds the target or finds exactly a completed build - and the next build ends clean *)
+Theorem C32_build_one : forall t b s0 k, trusted t b s0 ->
+  trusted t b (crash k t b s0) /\ exists s', recover t b (crash k t b s0) = Some s' /\ good_end t b s'.
+Proof. exact build_one_full. Qed.
 Print Assumptions C32_build_one.
 
 (* Non-vacuity. *)
 
-(* refuted: the witness history is a history of the statement (safe start), and a second one needs no --rebuild *)
-Example C32_refuted_nonvacuous :
-  safe wt wb wdone /\ recover wt wb (after wt wb [(true, 2)] wdone) = None
-  /\ safe wt wb empty_st /\ recover wt wb (after wt wb [(false, 8); (false, 2)] empty_st) = None.
-Proof. exact (conj wdone_safe (conj forced_rebuild_window (conj (empty_safe wt wb) double_kill_window))). Qed.
+(* the hypothesis holds of the empty plz-out (first build) and of a completed build; the histories that violated
+   the statement before the fix of StoreTargetMetadata (forced rebuild killed after 2 steps; kills after 8 and
+   then 2 steps) now end clean, for every step count *)
+Example C32_full_nonvacuous :
+  trusted wt wb empty_st /\ trusted wt wb wdone
+  /\ forallb (fun k => ends_clean (recover wt wb (after wt wb [(true, k)] wdone))) (seq 0 16) = true
+  /\ forallb (fun k1 => forallb (fun k2 => ends_clean (recover wt wb (after wt wb [(false, k1); (false, k2)] empty_st))) (seq 0 16)) (seq 0 16) = true.
+Proof. exact (conj (trusted_empty wt wb) (conj wdone_trusted (conj forced_rebuild_recovers double_kill_recovers))). Qed.
 
-(* partial / build_one: a first build killed after 7 of its 10 steps (outputs moved, no record yet) and a rebuild
-   after an edit (old record 9.. on both outputs) killed after 9 steps (record on a, not yet on b) are guarded
-   histories; both recover to the clean outputs [Some 7; Some 8], the second one by rebuilding *)
-Example C32_partial_nonvacuous :
+(* build_one: a first build killed after 9 of its 13 steps (outputs moved, no record yet) and a rebuild after an
+   edit (old record on both outputs, old content 5 in a) killed after 12 steps (new record on a, not yet on b) are
+   rebuilt by the next build; the rebuild ends with the clean outputs [7; 8]; a build killed after 12 (record on every output, not yet on the metadata file) is reused, after 11 rebuilt *)
+Example C32_build_one_nonvacuous :
   let old := mkRec 9 9 3 9 5 in
   let s_old := mkSt (Some (mkMd (MdFull [s "b"]) (Some old)))
                     (of_list [(s "a", mkFile 5%N (Some 5%N) (Some old)); (s "b", mkFile 8%N (Some 8%N) (Some old))]) None in
-  after_guarded wt wb [(false, 7)] empty_st <> None
-  /\ decide wt wb (after wt wb [(false, 7)] empty_st) = Rebuild
-  /\ after_guarded wt wb [(false, 9)] s_old <> None
-  /\ decide wt wb (after wt wb [(false, 9)] s_old) = Rebuild
-  /\ option_map (visible wt wb) (recover wt wb (after wt wb [(false, 9)] s_old)) = Some [Some 7; Some 8]%N
+  length (build_steps wt wb empty_st) = 13
+  /\ decide wt wb (crash 9 wt wb empty_st) = Rebuild
+  /\ length (build_steps wt wb s_old) = 14
+  /\ decide wt wb (crash 12 wt wb s_old) = Rebuild
+  /\ option_map (visible wt wb) (recover wt wb (crash 12 wt wb s_old)) = Some [Some 7; Some 8]%N
   /\ visible wt wb (clean wt wb) = [Some 7; Some 8]%N
-  /\ decide wt wb (after wt wb [(false, 10)] empty_st) = Reuse.
-Proof. vm_compute. repeat split; discriminate. Qed.
+  /\ decide wt wb (crash 12 wt wb empty_st) = Reuse
+  /\ decide wt wb (crash 11 wt wb empty_st) = Rebuild.
+Proof. vm_compute. repeat split. Qed.
 
 (* writefile: a 2-chunk write over an existing file killed before the rename keeps the old file; the full run replaces it *)
 Example C32_writefile_nonvacuous :
